@@ -724,7 +724,12 @@ macro_rules! core_ops3_impl {
                         };
                         let mut s_lwe: LWESecret<Vec<u8>> = LWESecret::alloc(Degree(n_lwe));
                         s_lwe.fill_binary_prob(0.5, &mut src(sh.seed, 1));
-                        let mut pt: LWEPlaintext<Vec<u8>> = LWEPlaintext::alloc_from_infos(&infos);
+                        // the plaintext may have fewer (or more) limbs than the ciphertext
+                        let mut pt: LWEPlaintext<Vec<u8>> = if op == "lwe_encrypt_sk" && sh.extra & 1 == 1 {
+                            LWEPlaintext::alloc(Base2K(sh.b_res), TorusPrecision(sh.k_in.max(1)))
+                        } else {
+                            LWEPlaintext::alloc_from_infos(&infos)
+                        };
                         let mut ct: LWE<Vec<u8>> = LWE::alloc_from_infos(&infos);
                         if op == "lwe_encrypt_sk" {
                             pt.data_mut().fill_uniform(sh.b_res as usize, &mut src(sh.seed, 2));
